@@ -29,6 +29,12 @@ CHECKS={
  "C05":dict(cat="fault_enumeration", tech="deterministic simulation with crash injection: durable-image snapshots of the simulated disk + resume DB copies at write gates, restart of a fresh session on the image, claims vs surviving bytes",
    text="The real filestorage code runs on a simulated disk with a durability model (O_SYNC writes durable at return, others volatile, torn in-flight sectors). At seed-chosen gates of piece writes (begin/mid/end) and at command points the world takes the durable image and a copy of the bbolt file, optionally deletes files from the image, boots a second session on them and checks through an observer peer and Stats that no piece is counted as held unless it is complete and correct in the surviving files, that the DB opens, and that the download then completes.",
    ref="DESIGN.md 5 C05", note="Crashes inside a bbolt commit are not explored (commit is atomic w.r.t. simulated scheduling; bbolt's own atomicity is trusted). File-size metadata is treated as durable. "+LEVEL_NOTE_COMMON),
+ "C15":dict(tech="deterministic simulation: scripted HTTP/UDP trackers record every raw announce of real sessions under generated reply scripts, faults and commands; online per-announce oracles",
+   text="Real sessions announce to scripted HTTP (net/http on the simulated network) and UDP (BEP 15) trackers. Each received announce is checked against the torrent's info-hash, listening port, the peer id seen by a scripted peer in the handshake, counter sanity, and the per-tracker per-run event discipline (first = started, completed at most once and only with left=0, stopped only after an accepted announce); spacing after a successful reply is checked against min(positive interval, positive min interval, client minimum) with transport slack (for UDP only sub-second storms, because the connect exchange hides the client's send time).",
+   ref="DESIGN.md 5 C15", note="Counters are checked for sanity (ranges, left=0 at completed), not for equality with Stats() at the exact send instant. "+LEVEL_NOTE_COMMON),
+ "C16":dict(tech="deterministic simulation: hours of fake time against tiers of scripted trackers with failure patterns, shared UDP tracker, reply fuzz; history oracles over the announce logs",
+   text="Tier fail-over is judged from the trackers' logs: after a failure the client saw, the next announce goes to another member, a working member keeps being used, every window of tier-size consecutive failures covers all members; each tier of a running torrent is contacted again within the back-off bound (tracker-directed waits honoured, lossy UDP excluded); replies (garbage, oversize, wrong transaction id, short, duplicate, error) never crash the client, are never read beyond the configured limit (transport byte counts per reply) and a reply under another transaction id is never used (its address is never dialled).",
+   ref="DESIGN.md 5 C16", note="Order rules are evaluated on HTTP-only tiers (the client-observed outcome is unknowable from a UDP tracker under loss/retransmission). "+LEVEL_NOTE_COMMON),
 }
 NA_REASON="check not built yet in this session (simulation scenario planned in DESIGN.md section 5; will be claimed once it runs clean on the unchanged tree)"
 m={"version":1,"setup_cmd":"./setup.sh",
